@@ -20,3 +20,18 @@ def check_c18(ctx):
          ["HashMap iteration order is canonicalised (sorted) before comparison",
           "apply is called under catch_unwind; the harness is built with overflow-checks=on so a wrapped counter would panic"],
          package="dist_harness", trusted=TRUSTED_DIST)
+
+
+def check_c24(ctx):
+    pure(ctx, "c24", "WalrusVerif.Props.C24",
+         "2500 (thorough: 20000) scripted connections of 1-8 frames from a grammar of valid commands (PUT/GET/REGISTER/STATE/METRICS, "
+         "payloads with inner/leading/trailing whitespace of every Unicode class, non-ASCII topics) and malformed frames (zero length, "
+         "oversized length whose body looks like valid frames, invalid UTF-8, unknown/incomplete commands), some cut mid-frame; 500 raw "
+         "non-aligned byte streams; char::is_whitespace vs the model's class on Unicode scalar values; oracle: one response per complete "
+         "frame, FIFO PUT/GET per topic; non-trivial = connection with a malformed frame followed or preceded by other frames",
+         None,
+         ["the node controller is replaced by a per-topic FIFO mock (what client.rs needs of it)",
+          "String::from_utf8 is an arbitrary decoder in the synchronisation theorems; the round-trip theorem is at the command level"],
+         package="dist_harness",
+         trusted=TRUSTED_DIST + ["harness/shims/tokio: in-memory TcpStream/TcpListener, immediate-ready read_exact/write_all; a peer that closes "
+                                 "mid-frame yields UnexpectedEof as a real socket does"])
